@@ -710,7 +710,11 @@ impl Gen {
     /// named like the tail of a victim's address sends engine messages naming the crafted vAMM string.
     pub fn rand_alias_attack(&mut self, h: &mut History, r: &mut Report) -> Rc<Step> {
         let Some((victim, v)) = self.rand_pos(h) else { return self.rand_advance(h, r) };
-        let k = self.rng.range(1, (victim.len() as u64 - 1).max(1)) as usize;
+        if victim.len() < 4 {
+            return self.rand_advance(h, r);
+        }
+        // keep the attacker's name at least 3 characters long (shorter addresses cannot hold balances)
+        let k = self.rng.range(1, victim.len() as u64 - 3) as usize;
         let fake_vamm = format!("{}{}", Self::vaddr(h, v), &victim[..k]);
         let attacker = victim[k..].to_string();
         let d = h.w.d;
@@ -721,7 +725,21 @@ impl Gen {
             4 => eng::ExecuteMsg::OpenPosition { vamm: fake_vamm, side: side_of(self.rng.chance(1, 2)), margin_amount: u(d), leverage: u(d), base_asset_limit: u(0) },
             _ => eng::ExecuteMsg::Liquidate { vamm: fake_vamm, trader: attacker.clone(), quote_asset_limit: u(0) },
         };
-        let funds = if h.w.cw20.is_none() && matches!(msg, eng::ExecuteMsg::DepositMargin { .. }) { 1 } else { 0 };
+        // the attacker is a real account: give it collateral and (cw20) an allowance so that nothing but
+        // the engine's own checks stands in its way
+        if h.last.bal(&attacker) < 10 * d {
+            h.step(Op::Send { from: "bank".into(), to: attacker.clone(), amount: 1000 * d }, r);
+            h.step(Op::Allowance { owner: attacker.clone(), amount: u128::MAX / 4 }, r);
+        }
+        let msg = match msg {
+            eng::ExecuteMsg::DepositMargin { vamm, .. } => eng::ExecuteMsg::DepositMargin { vamm, amount: u(self.rng.log_uniform(1, 5 * d)) },
+            m => m,
+        };
+        let funds = match &msg {
+            eng::ExecuteMsg::DepositMargin { amount, .. } if h.w.cw20.is_none() => amount.u128(),
+            eng::ExecuteMsg::OpenPosition { .. } if h.w.cw20.is_none() => d,
+            _ => 0,
+        };
         let sender = if matches!(msg, eng::ExecuteMsg::Liquidate { .. }) { "stranger".to_string() } else { attacker };
         let op = Op::Engine { sender, msg, funds };
         self.do_step(h, r, op)
